@@ -77,11 +77,12 @@ def mechanism(sc, va, vb, pa, pb, d):
         vc_abort = vc.final[0] == "raise" and type(vc.final[1]).__name__ == "AbortRetryError"
         if ve_fault and vc_abort and any(e_[0] == "metric" and e_[1] == "aborted" for e_ in ve.trace):
             return "attempt-hook-error-treated-as-attempt-failure-by-execute"
-        # ... and in the books: both deliver the hook's error, but call() settles the breaker with a cancel (its finally net) while
-        # execute() classifies the hook's error and records a failure
-        if ve_fault and propagated and kinds and kinds <= {"br.cancel", "br.failure", "metric", "log"}:
+        # ... and in the books: both deliver the hook's error, but what the breaker is told differs - call() settles with a cancel (its
+        # finally net) where execute() classifies the hook's error and records a failure; without a retry component call() runs
+        # on_attempt_end BEFORE recording (so the hook's error becomes the call's failure) where execute() has already recorded a success
+        if ve_fault and propagated and kinds and kinds <= {"br.cancel", "br.failure", "br.success", "metric", "log"}:
             names = {e[0] if e[0] not in ("metric", "log") else e[1] for e in (x, y) if e is not None}
-            if names <= {"br.cancel", "br.failure", "circuit_opened"}:
+            if names <= {"br.cancel", "br.failure", "br.success", "circuit_opened", "circuit_closed"}:
                 return "attempt-hook-error-treated-as-attempt-failure-by-execute"
     if x is None and y is None:
         return "final-differs"
